@@ -326,7 +326,7 @@ impl Check for C13 {
         "fault_enumeration"
     }
     fn rule(&self) -> String {
-        "differential twin runs: a generated prefix (no cancellation, deterministic transport that pends once before every read/write/flush and accepts 1 byte / all / all-but-one / 3 bytes per write) ends with one final request R in {publish QoS 1, publish QoS 2, subscribe, unsubscribe, poll, recv, drive, disconnect}; the reference executes R uncancelled and drains the connection; each variant drops R's future at await index j (every j the reference saw, optionally after 1 or 3 earlier cancelled attempts), keeps polling until idle, re-issues R if the snapshot says it was not enqueued, and drains. Decoded outbound packets (bytes included) of all connections and the delivered messages must equal the reference. Variants: the prefix may itself contain cancelled operations; with keep-alive on, the PINGREQ deadline falls right before the request or right after it (then the position of the PINGREQ is not compared); a queue-based request is followed by a QoS 0 publish; after a cancelled disconnect() the application polls first (weaker relation: nothing of the reference missing or reordered, same final DISCONNECT), or drops the handle and connects again (the next connection must lie between the run with the completed disconnect and the run without any), optionally after one more request on the closing handle (a refused request is on no connection's wire). Non-trivial iff the cancellation happened (the future was really dropped while pending); distinct keys = (request kind, await kind, bytes-of-the-packet-already-written bucket).".into()
+        "differential twin runs: a generated prefix (no cancellation, deterministic transport that pends once before every read/write/flush and accepts 1 byte / all / all-but-one / 3 bytes per write) ends with one final request R in {publish QoS 1, publish QoS 2, subscribe, unsubscribe, poll, recv, drive, disconnect}; the reference executes R uncancelled and drains the connection; each variant drops R's future at await index j (every j the reference saw, optionally after 1 or 3 earlier cancelled attempts), keeps polling until idle, re-issues R if the snapshot says it was not enqueued, and drains. Decoded outbound packets (bytes included) of all connections and the delivered messages must equal the reference. Variants: the prefix may itself contain cancelled operations; with keep-alive on, the PINGREQ deadline falls right before the request or right after it (then the position of the PINGREQ is not compared); a queue-based request is followed by a QoS 0 publish; after a cancelled disconnect() the application polls first (weaker relation: nothing of the reference missing or reordered, same final DISCONNECT), or drops the handle and connects again (the next connection must lie between the run with the completed disconnect and the run without any), optionally after one more request on the closing handle (a refused request is on no connection's wire). Where wire and deliveries agree and both runs ended idle, the send-state tables (retained, release, control: identifier and state) of both sessions agree as well. Non-trivial iff the cancellation happened (the future was really dropped while pending); distinct keys = (request kind, await kind, bytes-of-the-packet-already-written bucket).".into()
     }
     fn assumptions(&self) -> Vec<String> {
         let mut v: Vec<String> = COMMON_ASSUME.iter().map(|s| s.to_string()).collect();
